@@ -158,10 +158,10 @@ package ion
 //@ func (*bitstream).peekAtOffset
 //@ inline
 //@ split returns
-//@ requires bsStream(b) && 0 <= offset && offset < 4096
+//@ requires bsStream(b) && 0 <= offset && offset < 1<<40
 //@ modifies nothing
-//@ ensures[C03] old(bsAvail(b)) > offset ==> err == nil && result == old(bsByte(b, offset))
-//@ ensures[C07,C19] old(bsAvail(b)) <= offset ==> err != nil
+//@ ensures[C03] old(bsAvail(b)) > offset && offset < 4096 ==> err == nil && result == old(bsByte(b, offset))
+//@ ensures[C07,C19] old(bsAvail(b)) <= offset || offset >= 4096 ==> err != nil
 //@ safe[C06]
 
 //@ func parseTag
@@ -1916,3 +1916,20 @@ package ion
 //@ modifies *
 //@ atcall-if-any[C02] (*tokenizer).skipWhitespace false
 //@ atcall[C02] (*tokenizer).skipLobWhitespace true
+
+// ---------------------------------------------------------------------------
+// bitstream.go: the length re-validation of an annotation wrapper (C01, C03, C07): the
+// wrapper's remaining length must equal the size of the one value it encloses, computed from
+// the value's descriptor as the Ion binary spec gives it (a bool or a null has no bytes after
+// its descriptor, an inline length L has L more); a NOP pad or another wrapper is refused.
+//@ func (*bitstream).validateAnnotatedValue
+//@ split returns
+//@ requires bsStream(b)
+//@ invariant loop0 [counter int] 1 <= counter && counter <= 4096
+//@ modifies nothing
+//@ ensures[C01,C03] old(bsAvail(b)) > 0 && !specTagVarLen(old(bsByte(b, 0))) && old(bsByte(b, 0))>>4 != 0 && old(bsByte(b, 0))>>4 != 14 &&
+//@    (old(bsByte(b, 0))>>4 != 1 || old(bsByte(b, 0))&0x0F <= 1 || old(bsByte(b, 0))&0x0F == 15) && remainingLength == 1+specTagInlineLen(old(bsByte(b, 0))) ==> err == nil
+//@ ensures[C03,C07] old(bsAvail(b)) > 0 && !specTagVarLen(old(bsByte(b, 0))) && old(bsByte(b, 0))>>4 != 1 && remainingLength != 1+specTagInlineLen(old(bsByte(b, 0))) ==> err != nil
+//@ ensures[C07] old(bsAvail(b)) > 0 && old(bsByte(b, 0))&0x0F != 15 && (old(bsByte(b, 0))>>4 == 14 || old(bsByte(b, 0))>>4 == 0) ==> err != nil
+//@ ensures[C07,C19] old(bsAvail(b)) == 0 ==> err != nil
+//@ safe[C06]
